@@ -529,3 +529,322 @@ Proof.
     + intros Hin. unfold keys in Hn. cbn [map fst] in Hn. apply NoDup_remove_2 in Hn. apply Hn.
       apply in_or_app. now left.
 Qed.
+
+(* ================================================================================================ *)
+(* 9. the stable sort                                                                               *)
+(* ================================================================================================ *)
+Section Sort.
+Context {T : Type} (le : T -> T -> bool).
+Hypothesis le_total : forall a b, le a b = false -> le b a = true.
+
+Fixpoint lsorted (l : list T) : Prop :=
+  match l with
+  | a :: (b :: _) as r => le a b = true /\ lsorted r
+  | _ => True
+  end.
+
+Lemma insert_by_perm x l : Permutation (insert_by le x l) (x :: l).
+Proof.
+  induction l as [|y r IH]; [reflexivity|]. cbn [insert_by]. destruct (le x y); [reflexivity|].
+  rewrite IH. apply perm_swap.
+Qed.
+
+Lemma stable_sort_perm l : Permutation (stable_sort le l) l.
+Proof.
+  induction l as [|x r IH]; [reflexivity|]. cbn [stable_sort fold_right]. fold (stable_sort le r).
+  rewrite insert_by_perm. now constructor.
+Qed.
+
+Lemma insert_by_sorted x l : lsorted l -> lsorted (insert_by le x l).
+Proof.
+  induction l as [|y r IH]; intros H; [exact I|].
+  cbn [insert_by]. destruct (le x y) eqn:E.
+  - split; [exact E|exact H].
+  - apply le_total in E. destruct r as [|z r'].
+    + cbn. split; [exact E|exact I].
+    + destruct H as [Hyz Hr]. specialize (IH Hr). cbn [insert_by] in *. destruct (le x z) eqn:E2.
+      * split; [exact E|]. split; [exact E2|exact Hr].
+      * split; [exact Hyz|exact IH].
+Qed.
+
+Lemma stable_sort_sorted l : lsorted (stable_sort le l).
+Proof.
+  induction l as [|x r IH]; [exact I|]. cbn [stable_sort fold_right]. now apply insert_by_sorted.
+Qed.
+
+Lemma lsorted_tail x l : lsorted (x :: l) -> lsorted l.
+Proof. destruct l; [easy|]. now intros [_ H]. Qed.
+
+(* sorting a sorted list changes nothing (so the order of equal keys is kept: the sort is stable) *)
+Lemma stable_sort_id l : lsorted l -> stable_sort le l = l.
+Proof.
+  induction l as [|x r IH]; intros H; [reflexivity|]. cbn [stable_sort fold_right]. fold (stable_sort le r).
+  rewrite IH by (now apply lsorted_tail in H). destruct r as [|y r']; [reflexivity|].
+  cbn [insert_by]. destruct H as [E _]. now rewrite E.
+Qed.
+End Sort.
+
+Lemma key_le_total a b : key_le a b = false -> key_le b a = true.
+Proof.
+  unfold key_le. intros H. apply orb_false_iff in H as [H1 H2].
+  apply N.ltb_ge in H1. destruct (N.ltb_spec (snd a) (snd b)) as [L|L]; [reflexivity|].
+  cbn [orb]. assert (E : snd a = snd b) by lia. rewrite E in *. rewrite N.eqb_refl in *. cbn [andb] in *.
+  apply Nat.leb_gt in H2. apply Nat.leb_le. lia.
+Qed.
+
+Lemma key_le_mult a b : key_le a b = true -> (snd b <= snd a)%N.
+Proof.
+  unfold key_le. intros H. apply orb_true_iff in H as [H|H].
+  - apply N.ltb_lt in H. lia.
+  - apply andb_true_iff in H as [H _]. apply N.eqb_eq in H. lia.
+Qed.
+
+Fixpoint non_increasing (l : list N) : Prop :=
+  match l with
+  | a :: (b :: _) as r => (b <= a)%N /\ non_increasing r
+  | _ => True
+  end.
+
+Lemma lsorted_non_increasing (l : list (order * N)) : lsorted key_le l -> non_increasing (map snd l).
+Proof.
+  induction l as [|a r IH]; [easy|]. destruct r as [|b r']; [easy|].
+  intros [E H]. cbn [map non_increasing]. split; [now apply key_le_mult|]. now apply IH.
+Qed.
+
+(* ---- the ballots of an instance ---- *)
+Definition decorated (i : oinst) : list (order * N) := map (fun o => (o, mult_of i o)) (o_orders i).
+
+Lemma ballots_perm i : Permutation (ballots i) (decorated i).
+Proof. apply stable_sort_perm. Qed.
+
+Lemma ballots_sorted i : lsorted key_le (ballots i).
+Proof. apply stable_sort_sorted, key_le_total. Qed.
+
+Lemma keys_decorated i : keys (decorated i) = o_orders i.
+Proof. unfold keys, decorated. rewrite map_map. cbn [fst]. apply map_id. Qed.
+
+Lemma keys_ballots_perm i : Permutation (keys (ballots i)) (o_orders i).
+Proof. rewrite <- keys_decorated. unfold keys. apply Permutation_map, ballots_perm. Qed.
+
+Theorem ballots_non_increasing i : non_increasing (map snd (ballots i)).
+Proof. apply lsorted_non_increasing, ballots_sorted. Qed.
+
+(* ================================================================================================ *)
+(* 10. well-formedness as propositions                                                              *)
+(* ================================================================================================ *)
+Lemma nodupb_NoDup {T} (eqb : T -> T -> bool) (S : forall x y, eqb x y = true <-> x = y) l :
+  nodupb eqb l = true -> NoDup l.
+Proof.
+  induction l as [|x r IH]; intros H; [constructor|]. cbn [nodupb] in H. apply andb_true_iff in H as [H1 H2].
+  constructor; [|now apply IH]. intros Hin. apply negb_true_iff in H1.
+  assert (existsb (eqb x) r = true); [|congruence]. apply existsb_exists. exists x. split; [exact Hin|now apply S].
+Qed.
+
+Lemma wf_text_field v : wf_text v = true -> wf_field v.
+Proof.
+  unfold wf_text. intros H. apply andb_true_iff in H as [A B]. split; [now apply teqb_eq in B|exact A].
+Qed.
+
+Lemma valid_type_field dt : valid_type dt = true -> wf_field dt.
+Proof.
+  unfold valid_type. intros H. repeat (apply orb_true_iff in H as [H|H]); apply teqb_eq in H; subst; split; reflexivity.
+Qed.
+
+Record wf_ord_P (i : oinst) : Prop := {
+  wfp_fields : wf_fields (o_meta i);
+  wfp_names : wf_names (alt_names (o_meta i));
+  wfp_reserved : reserved (o_meta i) = [];
+  wfp_some : o_orders i <> [];
+  wfp_classes : Forall (fun o => Forall (fun c => c <> []) o) (o_orders i);
+  wfp_mult : Forall (fun p => (1 <= snd p)%N) (o_mult i);
+  wfp_keys : keys (o_mult i) = o_orders i;
+  wfp_nodup : NoDup (o_orders i)
+}.
+
+Lemma wf_ord_prop i : wf_ord i = true -> wf_ord_P i.
+Proof.
+  unfold wf_ord, wf_meta. intros H.
+  apply andb_true_iff in H as [H Hnd]. apply andb_true_iff in H as [H Hkeys].
+  apply andb_true_iff in H as [H Hmult]. apply andb_true_iff in H as [H Hcls].
+  apply andb_true_iff in H as [H Hsome].
+  apply andb_true_iff in H as [H Hres]. apply andb_true_iff in H as [H Hids].
+  apply andb_true_iff in H as [H Hnames].
+  apply andb_true_iff in H as [H F9]. apply andb_true_iff in H as [H F8]. apply andb_true_iff in H as [H F7].
+  apply andb_true_iff in H as [H F6]. apply andb_true_iff in H as [H F5]. apply andb_true_iff in H as [H F4].
+  apply andb_true_iff in H as [H F3]. apply andb_true_iff in H as [F1 F2].
+  constructor.
+  - repeat split; try (apply wf_text_field; assumption); try (apply valid_type_field; assumption);
+      try (apply wf_text_field in F1; apply F1); try (apply wf_text_field in F2; apply F2);
+      try (apply wf_text_field in F3; apply F3); try (apply valid_type_field in F4; apply F4);
+      try (apply wf_text_field in F5; apply F5); try (apply wf_text_field in F6; apply F6);
+      try (apply wf_text_field in F7; apply F7); try (apply wf_text_field in F8; apply F8);
+      try (apply wf_text_field in F9; apply F9).
+  - split.
+    + apply Forall_forall. intros p Hp. apply wf_text_field. rewrite forallb_forall in Hnames. now apply Hnames.
+    + apply (nodupb_NoDup N.eqb); [apply N.eqb_eq|assumption].
+  - destruct (reserved (o_meta i)); [reflexivity|discriminate].
+  - destruct (o_orders i); [discriminate|discriminate].
+  - apply Forall_forall. intros o Ho. apply Forall_forall. intros c Hc.
+    rewrite forallb_forall in Hcls. specialize (Hcls o Ho). rewrite forallb_forall in Hcls. specialize (Hcls c Hc).
+    destruct c; [discriminate|discriminate].
+  - apply Forall_forall. intros p Hp. rewrite forallb_forall in Hmult. specialize (Hmult p Hp). now apply N.leb_le in Hmult.
+  - apply (list_eqb_eq order_eqb order_eqb_eq). assumption.
+  - apply (nodupb_NoDup order_eqb order_eqb_eq). assumption.
+Qed.
+
+(* ================================================================================================ *)
+(* 11. more on strip: idempotence, first character, whitespace removal                              *)
+(* ================================================================================================ *)
+Section Strip2.
+Variable f : N -> bool.
+
+Lemma lstrip_by_snoc x c : f c = false -> exists x', lstrip_by f (x ++ [c]) = x' ++ [c].
+Proof.
+  intros Hc. induction x as [|d r [x' IH]]; cbn [app lstrip_by].
+  - rewrite Hc. now exists [].
+  - destruct (f d); [now exists x'|now exists (d :: r)].
+Qed.
+
+Lemma rstrip_by_head c r : f c = false -> exists r', rstrip_by f (c :: r) = c :: r'.
+Proof.
+  intros Hc. unfold rstrip_by. cbn [rev]. destruct (lstrip_by_snoc (rev r) c Hc) as [x' E].
+  rewrite E, rev_app_distr. cbn. now exists (rev x').
+Qed.
+
+Lemma lstrip_by_idem s : lstrip_by f (lstrip_by f s) = lstrip_by f s.
+Proof. induction s as [|c r IH]; [reflexivity|]. cbn [lstrip_by]. destruct (f c) eqn:E; [exact IH|]. cbn [lstrip_by]. now rewrite E. Qed.
+
+Lemma strip_by_idem s : strip_by f (strip_by f s) = strip_by f s.
+Proof.
+  apply strip_by_of_fix.
+  - unfold strip_by. remember (lstrip_by f s) as u eqn:Eu.
+    assert (Lu : lstrip_by f u = u) by (subst u; apply lstrip_by_idem).
+    destruct u as [|c r]; [reflexivity|]. cbn [lstrip_by] in Lu. destruct (f c) eqn:Ec.
+    + exfalso. pose proof (lstrip_by_length f r) as L. rewrite Lu in L. cbn in L. lia.
+    + destruct (rstrip_by_head c r Ec) as [r' E]. rewrite E. cbn [lstrip_by]. now rewrite Ec.
+  - unfold strip_by. apply rstrip_by_fix_rev. unfold rstrip_by. rewrite rev_involutive. apply lstrip_by_idem.
+Qed.
+End Strip2.
+
+Lemma strip_idem s : strip (strip s) = strip s.
+Proof. apply strip_by_idem. Qed.
+
+(* a line whose first character is neither blank nor '#' is not a header line *)
+Lemma strip_head c r : is_space c = false -> exists r', strip (c :: r) = c :: r'.
+Proof.
+  intros Hc. unfold strip, strip_by. cbn [lstrip_by]. rewrite Hc. now apply rstrip_by_head.
+Qed.
+
+Lemma remove_ws_lstrip s : remove_ws (lstrip_by is_space s) = remove_ws s.
+Proof.
+  induction s as [|c r IH]; [reflexivity|]. cbn [lstrip_by]. destruct (is_space c) eqn:E; [|reflexivity].
+  unfold remove_ws at 2. cbn [filter]. rewrite E. exact IH.
+Qed.
+
+Lemma remove_ws_rev s : remove_ws (rev s) = rev (remove_ws s).
+Proof.
+  unfold remove_ws. induction s as [|c r IH]; [reflexivity|]. cbn [rev filter]. rewrite filter_app, IH.
+  cbn [filter]. destruct (negb (is_space c)); cbn; [reflexivity|now rewrite app_nil_r].
+Qed.
+
+Lemma remove_ws_strip s : remove_ws (strip s) = remove_ws s.
+Proof.
+  unfold strip, strip_by, rstrip_by. rewrite remove_ws_rev, remove_ws_lstrip, remove_ws_rev, rev_involutive.
+  apply remove_ws_lstrip.
+Qed.
+
+(* ================================================================================================ *)
+(* 12. ord_parse only looks at stripped lines                                                       *)
+(* ================================================================================================ *)
+Lemma header_loop_strip au : forall ls st,
+  header_loop au st (map strip ls) =
+  rmap (fun p => (fst p, map strip (snd p))) (header_loop au st ls).
+Proof.
+  induction ls as [|l r IH]; intros st; [reflexivity|].
+  cbn [map header_loop]. rewrite strip_idem. destruct (startswith hash (strip l)); [|reflexivity].
+  destruct (header_step au st (strip l)) as [st'|e]; [|reflexivity]. cbn [rbind].
+  destruct r as [|l' r']; [reflexivity|]. exact (IH st').
+Qed.
+
+Lemma ballot_loop_strip au : forall ls st, ballot_loop au st (map strip ls) = ballot_loop au st ls.
+Proof.
+  induction ls as [|l r IH]; intros st; [reflexivity|]. cbn [map ballot_loop]. rewrite remove_ws_strip.
+  destruct (remove_ws l); [apply IH|]. destruct (parse_ballot _); [|reflexivity]. cbn [rbind]. apply IH.
+Qed.
+
+Lemma reserved_of_strip p ls : reserved_of p (map strip ls) = reserved_of p ls.
+Proof.
+  unfold reserved_of. induction ls as [|l r IH]; [reflexivity|]. cbn [map flat_map]. now rewrite strip_idem, IH.
+Qed.
+
+Theorem ord_parse_strip au ho m ls : ord_parse au ho m (map strip ls) = ord_parse au ho m ls.
+Proof.
+  unfold ord_parse. rewrite reserved_of_strip, header_loop_strip.
+  destruct (header_loop au _ ls) as [[[m' nu] rest]|e]; [|reflexivity].
+  cbn [rmap rbind fst snd]. destruct ho; [reflexivity|]. now rewrite ballot_loop_strip.
+Qed.
+
+Corollary ord_parse_same_stripped au ho m ls ls' :
+  map strip ls = map strip ls' -> ord_parse au ho m ls = ord_parse au ho m ls'.
+Proof. intros E. rewrite <- (ord_parse_strip au ho m ls), <- (ord_parse_strip au ho m ls'). now rewrite E. Qed.
+
+Corollary ord_parse_nl au ho m ls : ord_parse au ho m (map (fun l => l ++ nl) ls) = ord_parse au ho m ls.
+Proof.
+  apply ord_parse_same_stripped. rewrite map_map. apply map_ext. intros l. now apply strip_nl_r.
+Qed.
+
+(* ================================================================================================ *)
+(* 13. the header loop on a list of header lines followed by a ballot line                          *)
+(* ================================================================================================ *)
+Definition hfold_r (au : bool) (r : result (meta * N)) (H : list text) : result (meta * N) :=
+  fold_left (fun r l => rbind r (fun st => header_step au st (strip l))) H r.
+Definition hfold (au : bool) (st : meta * N) (H : list text) := hfold_r au (Ok st) H.
+
+Lemma hfold_r_err au e H : hfold_r au (Err e) H = Err e.
+Proof. induction H as [|l r IH]; [reflexivity|]. exact IH. Qed.
+
+Lemma hfold_app au st A B : hfold au st (A ++ B) = rbind (hfold au st A) (fun st1 => hfold au st1 B).
+Proof.
+  unfold hfold, hfold_r. rewrite fold_left_app. fold (hfold_r au (Ok st) A).
+  destruct (hfold_r au (Ok st) A) as [st1|e]; [reflexivity|]. apply hfold_r_err.
+Qed.
+
+Definition is_hash (l : text) : Prop := startswith hash (strip l) = true.
+Definition not_nuo (l : text) : Prop := startswith nuo_prefix (strip l) = false.
+
+Lemma header_loop_app au : forall H st st' b rest,
+  Forall is_hash H -> hfold au st H = Ok st' -> startswith hash (strip b) = false ->
+  header_loop au st (H ++ b :: rest) = Ok (st', b :: rest).
+Proof.
+  induction H as [|l r IH]; intros st st' b rest Hh Hf Hb.
+  - cbn in Hf. injection Hf as <-. cbn [app header_loop]. now rewrite Hb.
+  - inversion Hh as [|? ? Hl Hr]; subst. cbn [app header_loop]. unfold is_hash in Hl. rewrite Hl.
+    unfold hfold, hfold_r in Hf. cbn [fold_left rbind] in Hf.
+    destruct (header_step au st (strip l)) as [st1|e].
+    + cbn [rbind]. fold (hfold_r au (Ok st1) r) in Hf.
+      destruct (r ++ b :: rest) eqn:E; [now destruct r|]. rewrite <- E. now apply IH.
+    + fold (hfold_r au (Err e) r) in Hf. rewrite hfold_r_err in Hf. discriminate.
+Qed.
+
+Lemma parse_meta_lines_err au H : forall e,
+  fold_left (fun r l => rbind r (fun m => parse_metadata au m (strip l))) H (Err e) = Err e.
+Proof. induction H as [|l r IH]; intros e; [reflexivity|]. apply IH. Qed.
+
+Lemma hfold_meta au : forall H m nu, Forall not_nuo H ->
+  hfold au (m, nu) H = rmap (fun m' => (m', nu)) (parse_meta_lines au m H).
+Proof.
+  induction H as [|l r IH]; intros m nu Hn; [reflexivity|].
+  inversion Hn as [|? ? Hl Hr]; subst. unfold hfold, hfold_r, parse_meta_lines. cbn [fold_left rbind].
+  unfold header_step. unfold not_nuo in Hl. rewrite Hl. cbn [fst snd].
+  destruct (parse_metadata au m (strip l)) as [m1|e]; cbn [rmap].
+  - apply (IH m1 nu Hr).
+  - transitivity (@Err (meta * N) e); [apply (hfold_r_err au e r)|].
+    now rewrite parse_meta_lines_err.
+Qed.
+
+Lemma parse_meta_lines_app au m A B :
+  parse_meta_lines au m (A ++ B) = rbind (parse_meta_lines au m A) (fun m1 => parse_meta_lines au m1 B).
+Proof.
+  unfold parse_meta_lines. rewrite fold_left_app.
+  destruct (fold_left _ A (Ok m)) as [m1|e]; [reflexivity|]. apply parse_meta_lines_err.
+Qed.
